@@ -2,10 +2,10 @@ from props_common import COMMON_TRUSTED
 
 CONFIG = {
     "areas": ["conc"],
-    "lean": ["VProofs.ConcDnsClient", "VProps.C19"],
-    "sources": ["VProofs/ConcDnsClient.lean", "VProps/C19.lean", "VProofs/ConcDns.lean", "VProofs/ConcFetch.lean", "VModel/ConcDns.lean", "VModel/ConcFetch.lean",
+    "lean": ["VProofs.ConcDnsReplay", "VProofs.ConcDnsClient", "VProps.C19"],
+    "sources": ["VProofs/ConcDnsReplay.lean", "VProofs/ConcDnsClient.lean", "VProps/C19.lean", "VProofs/ConcDns.lean", "VProofs/ConcFetch.lean", "VModel/ConcDns.lean", "VModel/ConcFetch.lean",
                 "VModel/ConcVerify.lean", "VProofs/ConcVerify.lean", "VModel/KeyRing.lean", "VProofs/KeyRing.lean"],
-    "theorems": ["V.C19Client.step_extendTodo", "V.C19Client.run_extendTodo", "V.C19Client.reachable_extendTodo", "V.C19Client.todo_suffix", "V.C19Client.inject_reachable", "V.C19Client.clientReach_reachable", "V.C19Client.size_bounded_with_injections", "V.C19Client.no_dup_keys_with_injections", "V.C19Client.right_host_with_injections", "V.C19Client.clientReach_poke", 
+    "theorems": ["V.C19Replay.dnsReplayBoth_fst", "V.C19Replay.dnsReplayBoth_line", "V.C19Replay.dnsReplayBoth_clientReach", "V.C19Replay.dnsReplayStates_clientReach", "V.C19Replay.dnsModel_eq", "V.C19Replay.dnsModel_lines", "V.C19Replay.dnsModel_states_clientReach", "V.C19Replay.dnsModel_states_bounded", "V.C19Replay.dnsModel_allStates_bounded", "V.C19Client.step_extendTodo", "V.C19Client.run_extendTodo", "V.C19Client.reachable_extendTodo", "V.C19Client.todo_suffix", "V.C19Client.inject_reachable", "V.C19Client.clientReach_reachable", "V.C19Client.size_bounded_with_injections", "V.C19Client.no_dup_keys_with_injections", "V.C19Client.right_host_with_injections", "V.C19Client.clientReach_poke", 
         "V.C19.dns_size_bounded", "V.C19.dns_no_dup_keys", "V.C19.dns_no_stale_served", "V.C19.dns_right_host",
         "V.C19.linearizable_lookup_partial", "V.C19.dns_mutex_owner", "V.C19.dns_lockset_discipline", "V.C19.dns_no_deadlock", "V.C19.dns_evict_terminates", "V.C19.dns_lookup_terminates", "V.C19.dns_disabled_of_size_le_zero",
         "V.C19.dns_expiry_bounded", "V.C19.dns_evict_spins_of_size_le_zero", "V.C19.dns_evict_spins_while_clock_frozen",
